@@ -25,6 +25,16 @@
 //                   fresh  — created in this function (NewZVal, NewNamedZVal, &ZVal{…})
 //                   other  — anything else (variable cells, parameters, results of other calls).
 //
+// Second file, lean/Generated/C06ArrayFields.lean (round 6): the copy routine may consult nothing
+// but the element storage unless every editor of the storage maintains what it consults:
+//
+//   fields:    the fields of data.ArrayValue / data.ObjectValue with their role (storage, cursor,
+//              tag, embedded); a field the table below does not know is `derived` — taken to be a
+//              cached statement about the elements — and named by a shapeChanged entry;
+//   listEdits: every site that assigns `x.List`, `x.List[i]`, `*p` for a pointer to a slot list,
+//              or calls `x.property.Set / Delete`, with the non-storage fields of the owner that the
+//              enclosing function assigns (itself or through a method of the owner it calls).
+//
 // Line numbers are comments only; a site is identified by file, function, what and ordinal.
 // Anything the translator cannot do (go list / type errors) is a `shapeChanged` entry.
 package main
@@ -94,6 +104,8 @@ func goList(repo string, args ...string) ([]listPkg, error) {
 }
 
 var shape []string
+var shape2 []string         // C06ArrayFields
+var structFields [][3]string // owner, name, role
 
 var scalarStructs = map[string]bool{"StringValue": true, "IntValue": true, "FloatValue": true, "BoolValue": true}
 
@@ -147,6 +159,108 @@ type cellSite struct {
 	file, fn, field, origin string
 	guarded                 bool
 	ord, line               int
+}
+
+// ------------------------------------------------------------ fields / storage editors (round 6)
+
+var fieldRoles = map[string]map[string]string{
+	"ArrayValue":  {"List": "storage", "iterator": "cursor", "IndirectOverloadClass": "tag"},
+	"ObjectValue": {"Value": "embedded", "Context": "embedded", "property": "storage", "iterator": "cursor", "IndirectOverloadClass": "tag"},
+}
+
+type editSite struct {
+	file, fn, owner, what string
+	ord, line             int
+	direct                map[string]bool // owner fields the function assigns itself
+	calls                 []string        // names of the functions / methods it calls
+}
+
+var editSites []editSite
+
+// bare method name → fields of ArrayValue / ObjectValue the method assigns directly
+var methodAssigns = map[string]map[string]bool{}
+
+func ownerOf(t types.Type) string {
+	n, _ := dataNamed(t)
+	if n == "ArrayValue" || n == "ObjectValue" {
+		return n
+	}
+	return ""
+}
+
+func collectEdits(fset *token.FileSet, info *types.Info, fi *fnInfo, file, fn string, fd *ast.FuncDecl) {
+	direct := map[string]map[string]bool{"ArrayValue": {}, "ObjectValue": {}}
+	var calls []string
+	type raw struct {
+		owner, what string
+		pos         token.Pos
+	}
+	var found []raw
+	ast.Inspect(fd.Body, func(n ast.Node) bool {
+		switch s := n.(type) {
+		case *ast.AssignStmt:
+			for _, l := range s.Lhs {
+				switch x := unparen(l).(type) {
+				case *ast.SelectorExpr:
+					if tv, ok := info.Types[x.X]; ok {
+						if o := ownerOf(tv.Type); o != "" {
+							if fieldRoles[o][x.Sel.Name] == "storage" {
+								found = append(found, raw{o, "list", x.Pos()})
+							} else {
+								direct[o][x.Sel.Name] = true
+							}
+						}
+					}
+				case *ast.IndexExpr:
+					if fi.isSlotList(x.X) {
+						found = append(found, raw{"ArrayValue", "slot", x.Pos()})
+					}
+				case *ast.StarExpr:
+					if tv, ok := info.Types[x.X]; ok && isCellSlice(tv.Type) && fi.isSlotList(x.X) {
+						found = append(found, raw{"ArrayValue", "list", x.Pos()})
+					}
+				}
+			}
+		case *ast.IncDecStmt:
+			if x, ok := unparen(s.X).(*ast.SelectorExpr); ok {
+				if tv, ok := info.Types[x.X]; ok {
+					if o := ownerOf(tv.Type); o != "" && fieldRoles[o][x.Sel.Name] != "storage" {
+						direct[o][x.Sel.Name] = true
+					}
+				}
+			}
+		case *ast.CallExpr:
+			if n := calleeName(s); n != "" {
+				calls = append(calls, n)
+			}
+			if sel, ok := unparen(s.Fun).(*ast.SelectorExpr); ok && (sel.Sel.Name == "Set" || sel.Sel.Name == "Delete") {
+				if in, ok := unparen(sel.X).(*ast.SelectorExpr); ok && in.Sel.Name == "property" {
+					if tv, ok := info.Types[in.X]; ok && ownerOf(tv.Type) == "ObjectValue" {
+						found = append(found, raw{"ObjectValue", "property", s.Pos()})
+					}
+				}
+			}
+		}
+		return true
+	})
+	if fd.Recv != nil && len(fd.Recv.List) > 0 {
+		if tv, ok := info.Types[fd.Recv.List[0].Type]; ok {
+			if o := ownerOf(tv.Type); o != "" && len(direct[o]) > 0 {
+				if methodAssigns[fd.Name.Name] == nil {
+					methodAssigns[fd.Name.Name] = map[string]bool{}
+				}
+				for f := range direct[o] {
+					methodAssigns[fd.Name.Name][o+"."+f] = true
+				}
+			}
+		}
+	}
+	ord := map[string]int{}
+	for _, r := range found {
+		k := r.owner + "|" + r.what
+		editSites = append(editSites, editSite{file, fn, r.owner, r.what, ord[k], fset.Position(r.pos).Line, direct[r.owner], calls})
+		ord[k]++
+	}
 }
 
 func recvName(fd *ast.FuncDecl) string {
@@ -570,6 +684,35 @@ func main() {
 		if pkg == nil {
 			continue
 		}
+		if lp.ImportPath == modPath+"/data" {
+			for _, owner := range []string{"ArrayValue", "ObjectValue"} {
+				obj := pkg.Scope().Lookup(owner)
+				var st *types.Struct
+				if obj != nil {
+					st, _ = obj.Type().Underlying().(*types.Struct)
+				}
+				if st == nil {
+					shape2 = append(shape2, "data."+owner+" is no longer a struct")
+					continue
+				}
+				seen := map[string]bool{}
+				for i := 0; i < st.NumFields(); i++ {
+					name := st.Field(i).Name()
+					role := fieldRoles[owner][name]
+					if role == "" {
+						role = "derived"
+						shape2 = append(shape2, "data."+owner+" has a field the check does not know: "+name+" (if it says something about the elements, every editor of the element storage has to maintain it and the copy routine must not trust it otherwise)")
+					}
+					seen[name] = true
+					structFields = append(structFields, [3]string{owner, name, role})
+				}
+				for name := range fieldRoles[owner] {
+					if !seen[name] {
+						shape2 = append(shape2, "data."+owner+" has no field "+name+" any more")
+					}
+				}
+			}
+		}
 		nPkgs++
 		for _, f := range files {
 			fname := dir + "/" + filepath.Base(fset.Position(f.Pos()).Filename)
@@ -584,6 +727,7 @@ func main() {
 					fi.scanDefs(fd.Body)
 					w := &walker{fset: fset, info: info, file: fname, fn: recvName(fd), f: fi, scalars: &scalars, cells: &cells, nS: map[string]int{}, nC: map[string]int{}}
 					w.stmts(fd.Body, nil)
+					collectEdits(fset, info, fi, fname, recvName(fd), fd)
 				case *ast.GenDecl:
 					// function literals in package-level initialisers
 					for _, sp := range fd.Specs {
@@ -703,6 +847,7 @@ func main() {
 		fmt.Fprintln(os.Stderr, err)
 		os.Exit(1)
 	}
+	emitArrayFields(a.Out)
 	fmt.Printf("C06ScalarWrites: %d packages, %d functions, %d scalar-object writes, %d cell writes (%d to fresh cells, %d of unknown origin), %d shape facts\n",
 		nPkgs, nFuncs, len(scalars), len(cells), nFresh, nOther, len(shape))
 	// for the reader of a failed obligation: the sites the two theorems are about
@@ -716,4 +861,81 @@ func main() {
 		}
 	}
 	fmt.Printf("  scalar-object writes: %s\n  unguarded writes to slot cells: %s\n", strings.Join(ss, "; "), strings.Join(us, "; "))
+}
+
+func emitArrayFields(out string) {
+	sort.Strings(shape2)
+	sort.SliceStable(editSites, func(i, j int) bool {
+		x, y := editSites[i], editSites[j]
+		if x.file != y.file {
+			return x.file < y.file
+		}
+		return x.line < y.line
+	})
+	derived := map[string][]string{}
+	for _, f := range structFields {
+		if f[2] != "storage" {
+			derived[f[0]] = append(derived[f[0]], f[1])
+		}
+	}
+	var sb strings.Builder
+	sb.WriteString("import Model.ArrayFields\n")
+	sb.WriteString("/-! The fields of `data.ArrayValue` / `data.ObjectValue` and every site of the interpreter that edits the\nelement storage of one of them (`x.List = …`, `x.List[i] = …`, `*p = …` on a pointer to a slot list,\n`x.property.Set / Delete`), with the other fields of the owner the enclosing function assigns.\nLine numbers are in comments only. -/\n")
+	sb.WriteString("namespace Generated.C06ArrayFields\nopen Model.ArrayFields\n\n")
+	sb.WriteString("def fields : List Field := [")
+	for i, f := range structFields {
+		if i > 0 {
+			sb.WriteString(",")
+		}
+		fmt.Fprintf(&sb, "\n  ⟨%s, %s, %s⟩", ex.LeanString(f[0]), ex.LeanString(f[1]), ex.LeanString(f[2]))
+	}
+	sb.WriteString("]\n\ndef listEdits : List ListEdit := [")
+	var loose []string
+	for i, e := range editSites {
+		if i > 0 {
+			sb.WriteString(",")
+		}
+		set := map[string]bool{}
+		for f := range e.direct {
+			set[f] = true
+		}
+		for _, c := range e.calls {
+			for of := range methodAssigns[c] {
+				if strings.HasPrefix(of, e.owner+".") {
+					set[strings.TrimPrefix(of, e.owner+".")] = true
+				}
+			}
+		}
+		var rs []string
+		for f := range set {
+			rs = append(rs, f)
+		}
+		sort.Strings(rs)
+		var q []string
+		for _, r := range rs {
+			q = append(q, ex.LeanString(r))
+		}
+		fmt.Fprintf(&sb, "\n  ⟨%s, %s, %s, %s, %d, [%s]⟩ /- line %d -/", ex.LeanString(e.file), ex.LeanString(e.fn), ex.LeanString(e.owner), ex.LeanString(e.what), e.ord, strings.Join(q, ", "), e.line)
+		for _, f := range structFields {
+			if f[0] == e.owner && f[2] == "derived" && !set[f[1]] {
+				loose = append(loose, fmt.Sprintf("%s:%d %s leaves %s.%s alone", e.file, e.line, e.fn, e.owner, f[1]))
+			}
+		}
+	}
+	sb.WriteString("]\n\ndef shapeChanged : List String := [")
+	for i, s := range shape2 {
+		if i > 0 {
+			sb.WriteString(", ")
+		}
+		sb.WriteString(ex.LeanString(s))
+	}
+	sb.WriteString("]\n\nend Generated.C06ArrayFields\n")
+	if err := ex.WriteIfChanged(out, "C06ArrayFields.lean", sb.String()); err != nil {
+		fmt.Fprintln(os.Stderr, err)
+		os.Exit(1)
+	}
+	fmt.Printf("C06ArrayFields: %d fields, %d sites that edit element storage, %d shape facts\n", len(structFields), len(editSites), len(shape2))
+	if len(loose) > 0 {
+		fmt.Printf("  editors that leave a derived field alone: %s\n", strings.Join(loose, "; "))
+	}
 }
